@@ -192,9 +192,94 @@ def update(self):
             self.liquidate(vk)
 '''
 
+# bar-end liquidation of one vault (statement): only an unsafe vault; LP collateral is first redeemed to burn debt with the
+# 2% bounty; if that made the vault safe nothing more happens; otherwise the bounty is added back and the debt is
+# liquidated against collateral (half / full / capped: _get_liquidation_result) up to the whole short amount.
+REF_LIQUIDATE_OUTER = '''
+def liquidate(self, vault_key):
+    if vault_key not in self.vault:
+        raise DemeterError("unknown vault")
+    v = self.vault[vault_key]
+    before = self.get_vault_status(vault_key, self.get_norm_factor())
+    if before[0]:
+        raise DemeterError("safe vault")
+    r = self._reduce_debt(vault_key, True)
+    after = self.get_vault_status(vault_key, self.get_norm_factor())
+    if after[0]:
+        return DECIMAL_0
+    v.collateral_amount += r[2]
+    done = self._liquidate(v, v.osqth_short_amount, self.get_norm_factor())
+    return done[0]
+'''
+
+REF_REDUCE_DEBT = '''
+def _reduce_debt(self, vault_key, pay_bounty):
+    v = self.vault[vault_key]
+    if v.uni_nft_id is None:
+        return DECIMAL_0, DECIMAL_0, DECIMAL_0, DECIMAL_0
+    lp = v.uni_nft_id
+    got = self._redeem_uni_token(lp)
+    r = self._get_reduce_debt_result_in_vault(v, got[0], got[1], pay_bounty)
+    if r[1] > 0:
+        self.broker.add_to_balance(oSQTH, r[1])
+    self._record_action(ReduceDebtAction(
+        market=self.market_info, vault_id=vault_key.id, position=lp,
+        withdrawn_eth_amount=UnitDecimal(got[0], WETH.name), withdrawn_osqth_amount=UnitDecimal(got[1], oSQTH.name),
+        burn_amount=UnitDecimal(r[0], oSQTH.name), excess=UnitDecimal(r[1], oSQTH.name), bounty=UnitDecimal(r[2], WETH.name),
+        short_amount_after=UnitDecimal(v.osqth_short_amount, oSQTH.name),
+        collateral_after=UnitDecimal(v.collateral_amount, WETH.name)))
+    return r[0], r[1], r[2], got[0]
+'''
+
+REF_CHECK_VAULT = '''
+def _check_vault(self, vault_key, norm_factor):
+    st = self.get_vault_status(vault_key, norm_factor)
+    if not st[0]:
+        raise DemeterError("unsafe")
+    if st[1]:
+        raise DemeterError("dust")
+'''
+
+# mint + deposit (+ LP) in one transaction: a new vault when no key is given; the minted oSQTH goes to the wallet and onto
+# the vault's debt; the ETH goes wallet -> vault through deposit(); the safety check comes after all of it.
+REF_OPEN_DEPOSIT_MINT = '''
+def open_deposit_mint(self, deposit_eth_amount, osqth_mint_amount=DECIMAL_0, vault_key=None, uni_position=None):
+    nf = self.get_norm_factor()
+    if vault_key is None:
+        self._max_vault_id += 1
+        vault_key = VaultKey(self._max_vault_id)
+        self.vault[vault_key] = Vault(vault_key.id)
+        self._record_action(AddVaultAction(market=self.market_info, vault_id=vault_key.id, vault_count=len(self.vault)))
+    fee = Decimal(0)
+    to_deposit = deposit_eth_amount
+    if osqth_mint_amount > DECIMAL_0:
+        fr = self._get_fee(self.vault[vault_key], deposit_eth_amount, osqth_mint_amount)
+        fee = fr[0]
+        to_deposit = fr[1]
+        self.vault[vault_key].osqth_short_amount += osqth_mint_amount
+        self.broker.add_to_balance(oSQTH, osqth_mint_amount)
+        self._record_action(UpdateShortAction(
+            market=self._market_info, vault_id=vault_key.id, short_amount=UnitDecimal(osqth_mint_amount, oSQTH.name),
+            short_after=UnitDecimal(self.vault[vault_key].osqth_short_amount, oSQTH.name)))
+    if deposit_eth_amount > 0:
+        self.deposit(vault_key, to_deposit)
+    if uni_position is not None:
+        self._deposit_uni_position(vault_key, uni_position)
+    self._check_vault(vault_key, nf)
+    if fee > 0:
+        self.broker.subtract_from_balance(WETH, fee)
+    return vault_key, osqth_mint_amount
+'''
+
+REF_OPEN_BY_RATE = '''
+def open_deposit_mint_by_collat_rate(self, deposit_eth_amount, collateral_rate=CR_DENOMINATOR, vault_key=None, uni_position=None):
+    n = self.collateral_amount_to_osqth(deposit_eth_amount, collateral_rate)
+    return self.open_deposit_mint(deposit_eth_amount, n, vault_key, uni_position)
+'''
+
 WALLET = ["subtract_from_balance", "add_to_balance", "_record_action", "_check_vault", "_withdraw_collateral",
           "deposit", "_deposit_uni_position", "transfer_position_in", "transfer_position_out", "liquidate", "_reduce_debt",
-          "_liquidate"]
+          "_liquidate", "_redeem_uni_token", "_get_reduce_debt_result_in_vault", "open_deposit_mint"]
 OPQ = ["get_twap_price", "get_norm_factor", "_get_effective_collateral_in_eth", "get_position_amount", "calc_twap_price",
        "_get_single_liquidation_amount", "_get_liquidation_result", "_get_reduce_debt_bounty", "get_vault_status"]
 
@@ -289,6 +374,18 @@ def run(model, tier="quick"):
                   "LP redemption burns min(oSQTH, debt), adds the ETH, charges the bounty, clears the LP id", WALLET, opaque=OPQ)
     effects_check(res, model, F + "update", REF_UPDATE, "a vault is liquidated iff get_vault_status says not safe",
                   WALLET, opaque=OPQ)
+    effects_check(res, model, F + "liquidate", REF_LIQUIDATE_OUTER,
+                  "vault liquidation sequence: unsafe only; redeem LP with bounty; stop if safe; add the bounty back; liquidate "
+                  "up to the whole debt", WALLET, opaque=OPQ, keep_raise_effects=False, ordered=True)
+    effects_check(res, model, F + "_reduce_debt", REF_REDUCE_DEBT,
+                  "LP redemption: redeemed amounts go into the vault computation, excess oSQTH to the wallet, record matches",
+                  WALLET, opaque=OPQ, ordered=True)
+    formula_check(res, model, F + "_check_vault", REF_CHECK_VAULT, "rejects unsafe and dust vaults", opaque=OPQ)
+    effects_check(res, model, F + "open_deposit_mint", REF_OPEN_DEPOSIT_MINT,
+                  "mint+deposit(+LP): minted oSQTH to wallet and debt, ETH through deposit(), safety check after all mutations",
+                  WALLET, opaque=OPQ + ["_get_fee", "collateral_amount_to_osqth"], ordered=True)
+    effects_check(res, model, F + "open_deposit_mint_by_collat_rate", REF_OPEN_BY_RATE,
+                  "mint amount from the collateral ratio helper", WALLET, opaque=OPQ + ["collateral_amount_to_osqth"])
     res.floor("post_dominance_ops", post_dominance(model, res), 4)
     res.assumptions = ["norm_factor / price columns of the data are sane (data)",
                        "pandas label slicing data[a:b] is inclusive on both ends (7 one-minute rows for a 6 minute span)"]
